@@ -266,7 +266,7 @@ class Flow:
         for k, v in zip(d.keys, d.values):
             if k is None:
                 self.err('dict unpacking in params', d)
-            if isinstance(k, ast.Constant) and k.value in PER_POINT_KEYS:
+            if isinstance(k, ast.Constant) and (k.value in PER_POINT_KEYS or k.value in self.sort_keys):
                 if isinstance(v, ast.Name):
                     self.params_keys[k.value] = self.val(env, v.id)
                     continue
@@ -326,7 +326,7 @@ class Flow:
             if isinstance(tg, ast.Subscript):
                 base = tg.value
                 if isinstance(base, ast.Name) and base.id == 'params' and isinstance(tg.slice, ast.Constant):
-                    if tg.slice.value in PER_POINT_KEYS:
+                    if tg.slice.value in PER_POINT_KEYS or tg.slice.value in self.sort_keys:
                         self.params_keys[tg.slice.value] = (self.val(env, value.id) if isinstance(value, ast.Name)
                                                             else frozenset([I0]))
                 elif isinstance(base, ast.Name) and base.id in env and self.interesting(env[base.id]):
@@ -592,6 +592,14 @@ def gen_orderflow(repo):
                     raise TranslateError('%s/%s does not return (y, weight_array, ...)' % (dim, name))
             setup_adj[dim][name] = {1: 'S', 0: '', -1: 'U'}[adj]
             setup_rows.append('  (%s, %s, %d%%Z)' % (coq_str(dim), coq_str(name), adj))
+        # the re-ordering block of _return_results is pinned verbatim: the models gather EVERY sort_keys entry that is
+        # present along the leading axis (axes), so a condition on ndim / shape / type there must break the tie
+        rr = find_function(tree, cls, '_return_results')
+        blocks = [st for st in rr.body if isinstance(st, ast.If) and _mentions_order(st.test)]
+        if len(blocks) != 1:
+            raise TranslateError('%s/_return_results: expected exactly one `if self._sort_order is not None` block' % dim)
+        site_rows.append('  (%s, %s, %s, %s)' % (coq_str(dim), coq_str('_return_results'), coq_str('<block>'),
+                                                 coq_str(' ; '.join(ast.unparse(blocks[0]).split('\n')))))
         for name in PINNED_WRAPPER_FUNCS:
             fn = find_function(tree, cls, name)
             for tgt, text in sites_of(fn):
@@ -634,6 +642,19 @@ def gen_orderflow(repo):
     out.append('Definition gen_rows : list row := [\n' + ';\n'.join(rows) + '\n].\n')
     out.append('Definition gen_sites : list (string * string * string * string) := [\n' + ';\n'.join(site_rows) + '\n].\n')
     return '\n'.join(out)
+
+
+def method_table(repo):
+    """{(dim, method): (sort_keys, skip_sorting)} read from the decorators of the current source."""
+    out = {}
+    for dim, rel in MODS:
+        tree, _ = _parse(rel, repo)
+        for cls in [n for n in tree.body if isinstance(n, ast.ClassDef)]:
+            for fn in [n for n in cls.body if isinstance(n, ast.FunctionDef)]:
+                info = decorator_info(fn)
+                if info is not None:
+                    out[(dim, fn.name)] = info
+    return out
 
 
 GENERATORS = {'GenOrderFlow': gen_orderflow}
